@@ -79,6 +79,8 @@ def run(ctx):
             for d in res["diffs"]:
                 (soft if d.get("soft") else hard).append(d)
     seen_fc = set()
+    # one violation per key: prefer the most telling failing input (a later connection misbehaving) over its cause
+    hard.sort(key=lambda d: 0 if "does not behave like a fresh pair" in d["what"] else (1 if "struct_header_auto says" in d["what"] else 2))
     for d in hard:
         vkey = d.get("vkey", d["key"])
         if vkey.startswith("forward-compat:"): seen_fc.add(vkey)
